@@ -99,7 +99,11 @@ impl PayloadWriter {
         if current_len > self.max_payload_len {
             // If the current metric is too long, we need to truncate everything we just wrote to get us back to the end
             // of the last metric, since the previous parts of the buffer are still valid and could be flushed.
-            self.buf.truncate(self.last_offset());
+            //
+            // When writing length-delimited payloads, the placeholder for the length of the next payload sits right
+            // after the last metric and has to stay, or the next payload would be written without one.
+            let maybe_length_prefix_len = if self.with_length_prefix { 4 } else { 0 };
+            self.buf.truncate(current_last_offset + maybe_length_prefix_len);
 
             return false;
         }
